@@ -55,6 +55,28 @@ pub fn run(rep: &mut Rep) {
                 rep.add("publishes_expected_resent", pubs.len() as i64);
                 rep.add("pubrels_expected_resent", rels.len() as i64);
             }
+            // half of the cases: more traffic on the resumed connection, a second connection loss and a second resumption
+            let second = resumed && !w.blind && (acts.len() + ci) % 2 == 1;
+            if second {
+                w.start(0, Kind::Pub2);
+                w.settle_check();
+                w.start(1, Kind::Pub1);
+                w.settle_check();
+                if let Some(&(i, st)) = w.ackable().first() {
+                    w.deliver_ack(i, st, 0, 0);
+                    w.settle_check();
+                }
+                w.eof();
+                w.settle_check();
+                let (p2, r2) = w.unfinished();
+                let again = w.resume(if interval == NEVER { 5 } else { 1 }, Some(interval), false);
+                rep.add("second_resumptions", 1);
+                rep.add("publishes_expected_resent", p2.len() as i64);
+                rep.add("pubrels_expected_resent", r2.len() as i64);
+                if !again {
+                    w.blind = true;
+                }
+            }
             if resumed && !w.blind {
                 // the original futures complete on the acknowledgements received on the new connection
                 for _ in 0..4 {
